@@ -80,6 +80,18 @@ CHECKS['C10'] = dict(
          'wedge or a spin on a leaked lock is detected as deadlock / livelock, and each completed execution is validated by TLC.',
     design_ref='DESIGN.md section 6 C10', note=TB + '; line-mode preemption (sys.settrace) on _tee.py')
 
+CHECKS['C17'] = dict(
+    technique='TLA+ spec IterableQueue (main queue, spare/applied/used/claim tokens, suppliers, consumers, renew, stop) checked by '
+              'TLC: exactly-once per round, clean start of every round, token conservation, termination under fairness; the '
+              'as-found non-atomic token move must leak a marker in the model; TLC trace validation of the real IterableQueue '
+              'under a deterministic scheduler with every queue operation logged under the queue mutex',
+    text='TLC enumerates all interleavings of up to 3 suppliers and 3 consumers over 2-3 rounds separated by renew(), bounded and '
+         'unbounded queues, with and without stop requests: NoDuplicate, RoundComplete, CleanStart (no item or marker leaks between '
+         'rounds), NoInternalError, deadlock-freedom and ConsumersFinish under fairness.  The real IterableQueue over queue.Queue runs '
+         'under detsched; traces are validated by TLC; stop-request scenarios run in exact virtual time so that "within the wait '
+         'interval" is checked exactly.',
+    design_ref='DESIGN.md section 6 C17', note=TB + '; multiprocessing queues are not scheduled (same IterableQueue code path)')
+
 ALL = ['C%02d' % i for i in range(1, 21)]
 
 
